@@ -19,6 +19,10 @@ class InjectedFault(OSError):
     back end would raise)."""
 
 
+class InjectedBase(BaseException):
+    """A failure that is not an Exception (like SystemExit / GeneratorExit raised while a result is being written)."""
+
+
 _current = None
 
 
@@ -79,6 +83,8 @@ class Injector:
                 self.on_fire(site)
             if self.action == 'raise':
                 raise InjectedFault(f'vlab injected fault at {site["file"]}:{site["func"]}:{line}')
+            if self.action == 'raise-base':
+                raise InjectedBase(f'vlab injected non-Exception fault at {site["file"]}:{site["func"]}:{line}')
             if self.action == 'interrupt':
                 raise KeyboardInterrupt()
             if self.action == 'kill':
